@@ -390,7 +390,7 @@ def shard(arg):
     res = Result()
     cases = gen_cases(rng, n_expr, n_stmt)
     if idx == 0:
-        cases += [{'mode': m, 'src': s, 'via': v} for m, s in HAND for v in ('raw', 'api')]
+        cases = [{'mode': m, 'src': s, 'via': v} for m, s in HAND for v in ('raw', 'api')] + cases
     run_cases(cases, res, 'gen')
     res.samples = cases[:2]
     corpus = []
@@ -413,7 +413,7 @@ def run(ctx):
         std = rng.sample(std, min(len(std), 96))
     chosen = sorted(genshi_files) + sorted(std)
     per = [chosen[i::nsh] for i in range(nsh)]
-    args = [(ctx.seed, i, ctx.n(700, 40000), ctx.n(220, 12000), per[i]) for i in range(nsh)]
+    args = [(ctx.seed, i, ctx.n(700, 12000), ctx.n(220, 3500), per[i]) for i in range(nsh)]
     res = Result()
     for r in pmap('harness.props.c13', 'shard', args):
         res.merge(r)
